@@ -5,6 +5,7 @@ import fam_feat
 import fam_alpha
 import fam_textio
 import fam_cache
+import fam_cachecli
 
 
 def lookup(prop):
@@ -22,4 +23,6 @@ def lookup(prop):
         return fam_textio.run
     if prop == "C13":
         return fam_cache.run
+    if prop == "C14":
+        return fam_cachecli.run
     return None
